@@ -123,6 +123,10 @@ class JSONPointer:
         return index
 
     def _getitem(self, obj: Any, key: Any) -> Any:  # noqa: PLR0912
+        if isinstance(obj, str):
+            # A string is a Python sequence, but no reference token applies to it.
+            raise JSONPointerTypeError(f"{key}: can't step into a string")
+
         try:
             return getitem(obj, key)
         except KeyError as err:
